@@ -25,6 +25,10 @@ var verifC18Templates = []struct{ pre, post string }{
 	{"select \"", ""},
 	{"select '", "' from"},   // a syntax error after a (possibly multi-line) quoted token
 	{"select `", "` +\n+"},
+	// comments on a later line, the last one running to the end of the input
+	{"select 1 +\n  ", " -- c"},
+	{"select 1;\n\nselect 2 /* x\ny */ + ", "-- comment"},
+	{"-- a\nselect (", " -- b"},
 }
 
 func verifC18Text(tag string, n int) string {
@@ -50,13 +54,20 @@ func VerifC18Totality() {
 		if ok {
 			// lines of the input: LF, CR and CR LF each end one line
 			lines := 1
+			lineLen := []int{0}
 			for i := 0; i < len(src); i++ {
 				if src[i] == '\n' || (src[i] == '\r' && (i+1 == len(src) || src[i+1] != '\n')) {
 					lines++
+					lineLen = append(lineLen, 0)
+				} else if src[i] != '\r' {
+					lineLen[len(lineLen)-1]++
 				}
 			}
 			verifAssert("error line inside the input", se.Line >= 1 && se.Line <= lines)
 			verifAssert("error column inside the input", se.Char >= 0 && se.Char <= len(src)+1)
+			if se.Line >= 1 && se.Line <= lines {
+				verifAssert("error column inside its line", se.Char <= lineLen[se.Line-1]+1)
+			}
 		}
 		verifReach("syntax-error")
 		return
@@ -109,11 +120,14 @@ var verifC18Queries = []string{
 	"select a from t union select a from u union all (select a from v intersect all select a from w) except all select 1",
 	"select a from t limit 3 rows only",
 	"select a from t fetch first 10 percent with ties",
-	"select json_object(a, b as c), json_agg(a), listagg(a), cursor c is open, cursor c is not in range, cursor c count from t",
+	"select json_object(a, b as c), json_agg(a), listagg(a), cursor c is open, cursor `my cur` is not in range, cursor `order` count, cursor `2nd` is not open, cursor c is in range from t",
 	"select t.*, t.a, t.1, `t 2`.`c d` from t, `t 2` where t.a <> `t 2`.`c d`",
 	"select cast_me(a), @v := 1, @v := @v + 1 from t",
 	"select a from t where a is unknown or a is not unknown or not a is null",
 	"select a as `as`, b as `select`, `from`.`where` from `from`",
+	"select sum(a) over (order by b rows between 1 following and current row), max(a) over (order by b rows between 2 preceding and current row), min(a) over (order by b rows between current row and current row), count(a) over (order by b rows current row), count(a) over (order by b rows unbounded preceding), avg(a) over (order by b rows between 1 following and 2 following), sum(a) over (order by b rows between 2 preceding and 1 preceding) from t",
+	"select * from jsonl('a', `j.jsonl`) j cross join csv_inline(',', 'a,b') i cross join json_inline('{}', '[]') k",
+	"select a from t where (a, b) = (1, 2) and (a, b) < (select 1, 2) and (a, b) between (1, 1) and (2, 2) and (a, b) not in (select 1, 2) and (a, b) <> all ((1, 2), (3, 4))",
 }
 
 // The canonical printed form of each query above, written by hand from the source: the same tokens
@@ -147,11 +161,14 @@ var verifC18Canon = []string{
 	"SELECT a FROM t UNION SELECT a FROM u UNION ALL (SELECT a FROM v INTERSECT ALL SELECT a FROM w) EXCEPT ALL SELECT 1",
 	"SELECT a FROM t LIMIT 3 ROWS ONLY",
 	"SELECT a FROM t FETCH FIRST 10 PERCENT WITH TIES",
-	"SELECT JSON_OBJECT(a, b AS c), JSON_AGG(a), LISTAGG(a), CURSOR c IS OPEN, CURSOR c IS NOT IN RANGE, CURSOR c COUNT FROM t",
+	"SELECT JSON_OBJECT(a, b AS c), JSON_AGG(a), LISTAGG(a), CURSOR c IS OPEN, CURSOR `my cur` IS NOT IN RANGE, CURSOR `order` COUNT, CURSOR `2nd` IS NOT OPEN, CURSOR c IS IN RANGE FROM t",
 	"SELECT t.*, t.a, t.1, `t 2`.`c d` FROM t, `t 2` WHERE t.a <> `t 2`.`c d`",
 	"SELECT CAST_ME(a), @v := 1, @v := @v + 1 FROM t",
 	"SELECT a FROM t WHERE a IS UNKNOWN OR a IS NOT UNKNOWN OR NOT a IS NULL",
 	"SELECT a AS `as`, b AS `select`, `from`.`where` FROM `from`",
+	"SELECT SUM(a) OVER (ORDER BY b ROWS BETWEEN 1 FOLLOWING AND CURRENT ROW), MAX(a) OVER (ORDER BY b ROWS BETWEEN 2 PRECEDING AND CURRENT ROW), MIN(a) OVER (ORDER BY b ROWS BETWEEN CURRENT ROW AND CURRENT ROW), COUNT(a) OVER (ORDER BY b ROWS CURRENT ROW), COUNT(a) OVER (ORDER BY b ROWS UNBOUNDED PRECEDING), AVG(a) OVER (ORDER BY b ROWS BETWEEN 1 FOLLOWING AND 2 FOLLOWING), SUM(a) OVER (ORDER BY b ROWS BETWEEN 2 PRECEDING AND 1 PRECEDING) FROM t",
+	"SELECT * FROM JSONL('a', `j.jsonl`) j CROSS JOIN CSV_INLINE(',', 'a,b') i CROSS JOIN JSON_INLINE('{}', '[]') k",
+	"SELECT a FROM t WHERE (a, b) = (1, 2) AND (a, b) < (SELECT 1, 2) AND (a, b) BETWEEN (1, 1) AND (2, 2) AND (a, b) NOT IN (SELECT 1, 2) AND (a, b) <> ALL ((1, 2), (3, 4))",
 }
 
 func verifFmt1(q, lit string) string {
